@@ -8,7 +8,7 @@ cd "$wt" || exit 2
 git apply "$dir/patch.diff" || { echo "PATCH DOES NOT APPLY"; cd /; git -C /repo worktree remove --force "$wt"; exit 2; }
 tests=$(/venv/bin/python -m pytest -q -p no:cacheprovider tests 2>&1 | tail -1)
 /venv/bin/python "$dir/demo.py" >/dev/null 2>&1; with=$?
-git stash -q
+git checkout -q -- .
 /venv/bin/python "$dir/demo.py" >/dev/null 2>&1; without=$?
 cd /; git -C /repo worktree remove --force "$wt"
 echo "$id: tests[$tests] demo-with-change rc=$with demo-without rc=$without"
